@@ -37,7 +37,7 @@ pub struct Config {
     /// how the import sets of the library-to-library edges are written (see `import_set`)
     pub style: u8,
 }
-pub const STYLES: [&str; 6] = ["direct", "only", "prefix", "rename", "except", "mixed"];
+pub const STYLES: [&str; 7] = ["direct", "only", "prefix", "rename", "except", "mixed", "only-nothing"];
 
 /// the import set by which library i imports library j
 fn import_set(style: u8, i: usize, j: usize) -> String {
@@ -47,6 +47,8 @@ fn import_set(style: u8, i: usize, j: usize) -> String {
         1 => format!("(only ({0}) v{0})", NAMES[j]),
         2 => format!("(prefix ({}) p-)", NAMES[j]),
         3 => format!("(rename ({0}) (v{0} w{0}))", NAMES[j]),
+        // imports no binding at all - the library is loaded all the same
+        6 => format!("(only ({}))", NAMES[j]),
         _ => format!("(except ({0}) v{0})", NAMES[j]),
     }
 }
@@ -131,7 +133,7 @@ impl Space {
 }
 
 /// import-set styles applied to the (all-healthy) graphs on 3 libraries
-const STYLED3: [u8; 2] = [1, 5];
+const STYLED3: [u8; 3] = [1, 5, 6];
 
 fn lib_name(i: usize) -> LibraryName {
     LibraryName(vec![LibraryNameElement::Identifier(NAMES[i].to_string())])
@@ -535,7 +537,7 @@ pub fn run(ctx: &Ctx) -> i32 {
             tier: ctx.tier_name(),
             seed: ctx.seed,
             exhaustive: true,
-            rule: format!("every directed graph (self-loops allowed) on 1 and 2 libraries with every assignment of 8 node healths (healthy, missing, faulting body, wrong name in file, syntactically broken, not UTF-8, path is a directory, healthy behind another library definition in the same source); every graph on 3 libraries (512) with {}; the library-to-library edges written as plain names and, for all configurations on <= 2 libraries and the all-healthy graphs on 3, as only / prefix / rename / except / mixed import sets; for each configuration every history of import attempts on one interpreter (length 3 on <= 2 libraries{}; maximal histories cover their prefixes), with the libraries as files under the program directory (decoy libraries with other values in the working directory) and as registered sources; states = configurations, transitions = import attempts; plus every sequence of <= 3 program files from three directories evaluated on one interpreter (each imports a library that lives next to it, decoys everywhere else)", if ctx.thorough() { "every health assignment (512)" } else { "at most one unhealthy node (22 assignments)" }, if ctx.thorough() { ", length 3 on 3 libraries with at most one unhealthy node, otherwise 2" } else { ", length 2 on 3 libraries" }),
+            rule: format!("every directed graph (self-loops allowed) on 1 and 2 libraries with every assignment of 8 node healths (healthy, missing, faulting body, wrong name in file, syntactically broken, not UTF-8, path is a directory, healthy behind another library definition in the same source); every graph on 3 libraries (512) with {}; the library-to-library edges written as plain names and, for all configurations on <= 2 libraries and the all-healthy graphs on 3, as only / prefix / rename / except / mixed / empty-only import sets; for each configuration every history of import attempts on one interpreter (length 3 on <= 2 libraries{}; maximal histories cover their prefixes), with the libraries as files under the program directory (decoy libraries with other values in the working directory) and as registered sources; states = configurations, transitions = import attempts; plus every sequence of <= 3 program files from three directories evaluated on one interpreter (each imports a library that lives next to it, decoys everywhere else)", if ctx.thorough() { "every health assignment (512)" } else { "at most one unhealthy node (22 assignments)" }, if ctx.thorough() { ", length 3 on 3 libraries with at most one unhealthy node, otherwise 2" } else { ", length 2 on 3 libraries" }),
             bounds: json!({"configurations": total, "worker_deaths": res.deaths.len()}),
             assumptions: vec!["reference loader: cyclic-import error iff a cycle is reachable through readable libraries, the underlying error kind iff an unhealthy library is reachable, either when both, success otherwise; shared dependencies are not cycles".into(), "hook H2 (verif_in_progress) gives the in-progress set".into()],
             wall_s: ctx.elapsed(),
